@@ -199,6 +199,7 @@ def run_table(case, acc, b2c):
         res = orig(point, bin_size, sliding_increment)
         calls.append((point, bin_size, sliding_increment, res))
         return res
+    df_second = None
     with Scratch('c10') as d:
         bams = [write_bam(os.path.join(d, f'in{fi}.bam'), rf, rc) for fi, (rf, rc) in enumerate(zip(refs_per_file, recs_per_file))]
         b2c.coordinate_to_bins = spy
@@ -213,7 +214,7 @@ def run_table(case, acc, b2c):
                 elif history == 'same_args_second_call':
                     df = b2c.create_count_table(args, return_df=True)
                     args.alignmentfiles = [bams[1]]
-                    df = df.add(b2c.create_count_table(args, return_df=True), fill_value=0)
+                    df_second = b2c.create_count_table(args, return_df=True)
                 else:
                     df = b2c.create_count_table(args, return_df=True)
         finally:
@@ -226,6 +227,9 @@ def run_table(case, acc, b2c):
         if [(int(a), int(c)) for a, c in res] != exp:
             acc.count('hook:wrong_bins_during_table')
     got = df_to_dict(df)
+    if df_second is not None:
+        for key, val in df_to_dict(df_second).items():
+            got[key] = got.get(key, 0.0) + val
     acc.count('table:cells_compared', len(set(got) | set(truth)))
     diffs = []
     for key in sorted(set(got) | set(truth), key=repr):
